@@ -29,6 +29,7 @@ Shapes3 == IF Deep THEN {<<2, 2, 2>>, <<1, 2, 3>>, <<3, 1, 2>>} ELSE {<<2, 2, 2>
 \* quick bounds: the same boundary condition on the three axes; thorough: mixed
 I2 == \E k1 \in K1, k2 \in K1, k3 \in K1, lo \in {<<0, 0, 0>>, <<-1, 2, 1>>}, n \in Shapes3 :
         /\ (Deep \/ (k1.bc = k2.bc /\ k2.bc = k3.bc))
+        /\ (n = <<2, 2, 2>> \/ lo # <<0, 0, 0>>)
         /\ \E a \in Impulses(lo, n) : inst = [kind |-> "sep", ks |-> <<k1, k2, k3>>, a |-> a]
 \* (4) periodic convolution with padding against the non-periodic one; unused axes have size 1, index 0
 Pads == IF Deep THEN {<<1, 1, 2>>, <<1, 1, 4>>, <<1, 2, 4>>, <<1, 1, 8>>, <<2, 2, 2>>, <<1, 4, 2>>}
